@@ -160,6 +160,7 @@ pub async fn run_case(c: Case) -> Result<CaseInfo, Failure> {
     let mut step = 0usize;
     let mut failed_pub: Option<usize> = None;
     let mut known: Vec<String> = Vec::new();
+    let mut early_rel = false;
 
     // invariant evaluated after every settle
     let check_no_early_ack = |eut: &Eut, c: &Case, seq_of: &[u32]| -> Result<(), Failure> {
@@ -172,7 +173,14 @@ pub async fn run_case(c: Case) -> Result<CaseInfo, Failure> {
             let pid = i as u16 + 1;
             let exited_ok = evs.iter().any(|e| matches!(e, Ev::PubExit { seq, outcome: Outcome::Ok } if *seq == seq_of[i]));
             if !exited_ok {
-                let (a, r, _) = acks_for(&pk, pid);
+                let (a, r, comp) = acks_for(&pk, pid);
+                if !comp.is_empty() {
+                    return Err(Failure::new(
+                        "pubcomp-before-handler-completed",
+                        format!("C03/{}/pubcomp-before-handler-completed", c.role.name()),
+                        format!("PUBCOMP for packet id {pid} is on the wire before the handler of that publish completed (PUBREL sent early)"),
+                    ));
+                }
                 if a.iter().chain(r.iter()).any(|x| x.reason < 0x80) {
                     return Err(fail(c, "ack-before-handler-completed", format!("success acknowledgement for packet id {pid} on the wire before its handler completed successfully")));
                 }
@@ -230,6 +238,22 @@ pub async fn run_case(c: Case) -> Result<CaseInfo, Failure> {
                 check_no_early_ack(&eut, &c, &seq_of)?;
             }
         }
+        // early PUBREL: an impatient peer releases before it has seen PUBREC (the id is already in use on the server)
+        for i in 0..n {
+            if c.pubs[i].qos == 2 && c.pubs[i].rel_delay == 3 && c.pubs[i].deferred && c.pubs[i].outcome == Outcome::Ok && c.role.is_server() && st[i].arrived && st[i].rel_sent_at.is_none() && failed_pub.is_none() {
+                let entered = eut.app().events().iter().any(|e| matches!(e, Ev::PubEnter { seq, .. } if *seq == seq_of[i]));
+                let (pk, _) = eut.packets();
+                let (_, rec, _) = acks_for(&pk, i as u16 + 1);
+                if entered && rec.is_empty() {
+                    eut.peer().pump();
+                    st[i].rel_sent_at = Some(eut.peer().wire_len());
+                    early_rel = true;
+                    eut.peer_send(&P5::PubRel(s5::Ack5 { pid: i as u16 + 1, ..Default::default() }), &[]);
+                    eut.settle().await;
+                    check_no_early_ack(&eut, &c, &seq_of)?;
+                }
+            }
+        }
         // reactive PUBREL
         let (pk, _) = eut.packets();
         for i in 0..n {
@@ -281,7 +305,8 @@ pub async fn run_case(c: Case) -> Result<CaseInfo, Failure> {
         let p = &c.pubs[*i];
         let fatal = match p.outcome {
             Outcome::Err => true,
-            Outcome::ErrAck(_) | Outcome::NegAck(_) => !c.role.is_v5() || (p.qos == 0 && matches!(p.outcome, Outcome::ErrAck(_))),
+            // (the v5 client API has no error-to-acknowledgement mapping: the bed's client handler returns the acknowledgement itself)
+            Outcome::ErrAck(_) | Outcome::NegAck(_) => !c.role.is_v5() || (c.role == Role::V5Server && p.qos == 0 && matches!(p.outcome, Outcome::ErrAck(_))),
             Outcome::Ok => false,
         };
         if fatal {
@@ -363,6 +388,17 @@ pub async fn run_case(c: Case) -> Result<CaseInfo, Failure> {
                 if !puback.is_empty() || !pubrec.is_empty() || !pubcomp.is_empty() {
                     return Err(fail(&c, "qos0-acknowledged", format!("QoS 0 publish #{i} was acknowledged")));
                 }
+                // a failing QoS 0 handler cannot be answered with a negative acknowledgement: the connection ends
+                if failed_pub == Some(pos) {
+                    let has_control = !(c.router && !c.role.is_server());
+                    if has_control && stops.is_empty() {
+                        return Err(Failure::new(
+                            "failure-not-reported",
+                            format!("C03/{}/failure-not-reported/qos0", c.role.name()),
+                            format!("handler of QoS 0 publish #{i} failed ({:?}) but the connection was not ended and nothing was reported: stops {stops:?}; log {:?}", p.outcome, brief_log(&evs)),
+                        ));
+                    }
+                }
             }
             (1, Outcome::Ok) => {
                 // once the connection failed, queued acknowledgements may never be written
@@ -395,6 +431,10 @@ pub async fn run_case(c: Case) -> Result<CaseInfo, Failure> {
                         if after_failure && pubcomp.is_empty() {
                             continue;
                         }
+                        let rec_end = pk.iter().find(|w| matches!(&w.pkt, P5::PubRec(a) if a.pid == pid)).map(|w| w.end);
+                        if pubcomp.len() == 1 && rec_end.is_some_and(|r| pubcomp[0].1 < r) {
+                            return Err(fail(&c, "qos2-pubcomp-before-pubrec", format!("QoS 2 publish id {pid}: PUBCOMP written before PUBREC")));
+                        }
                         if pubcomp.len() != 1 || pubcomp[0].1 <= at {
                             if failed_pub.is_some() && pubcomp.is_empty() {
                                 continue;
@@ -409,7 +449,7 @@ pub async fn run_case(c: Case) -> Result<CaseInfo, Failure> {
                     }
                 }
             }
-            (q, Outcome::NegAck(code) | Outcome::ErrAck(code)) if c.role.is_v5() => {
+            (q, Outcome::NegAck(code) | Outcome::ErrAck(code)) if c.role.is_v5() && q > 0 => {
                 // the mapped negative acknowledgement, never a success one
                 let all: Vec<&&s5::Ack5> = puback.iter().chain(pubrec.iter()).collect();
                 if all.iter().any(|a| a.reason < 0x80) {
@@ -471,6 +511,9 @@ pub async fn run_case(c: Case) -> Result<CaseInfo, Failure> {
     if failing {
         info.labels.push("failing-handler");
     }
+    if early_rel {
+        info.labels.push("pubrel-before-pubrec");
+    }
     if streamed {
         info.labels.push("delivered-in-pieces");
     }
@@ -506,10 +549,12 @@ fn pub_spec(v5: bool) -> impl Strategy<Value = PubSpec> {
         ],
         prop_oneof![4 => Just(ReadPlan::Eager), 2 => Just(ReadPlan::Lazy), 1 => Just(ReadPlan::Abandon)],
         any::<bool>(),
-        (any::<bool>(), any::<bool>(), 0u8..4, 0u8..3, 0u8..3),
+        (any::<bool>(), any::<bool>(), 0u8..4, 0u8..3, 0u8..4),
     )
         .prop_map(move |((qos, payload, pieces), outcome, read, deferred, (retain, dup, topic, props, rel_delay))| {
             let outcome = match outcome {
+                // v5 QoS 0: an error that maps to a negative acknowledgement cannot be acknowledged: the connection ends
+                Outcome::ErrAck(c) if v5 && qos == 0 => Outcome::ErrAck(c),
                 Outcome::NegAck(_) | Outcome::ErrAck(_) if !v5 || qos == 0 => Outcome::Ok,
                 o => o,
             };
@@ -530,7 +575,7 @@ fn case_strategy(role: Role) -> BoxedStrategy<Case> {
             // at most one fatal failure, and abandoned payloads only on the last publish
             let mut fatal_seen = false;
             for p in &mut pubs {
-                let fatal = matches!(p.outcome, Outcome::Err);
+                let fatal = matches!(p.outcome, Outcome::Err) || (role == Role::V5Server && p.qos == 0 && matches!(p.outcome, Outcome::ErrAck(_)));
                 if fatal && fatal_seen {
                     p.outcome = Outcome::Ok;
                 }
